@@ -53,7 +53,14 @@ var typeTypesetInit = NewStructType([]*StructElement{
 
 func init() {
 	oneArgCtor := func(ctx px.Context, args []px.Value) px.Value {
-		return newTypeSetType2(args[0].(*Hash), ctx.Loader())
+		if len(args) != 1 {
+			panic(illegalArgumentCount(`TypeSet[]`, `1`, len(args)))
+		}
+		ih, ok := args[0].(*Hash)
+		if !ok {
+			panic(illegalArgumentType(`TypeSet[]`, 0, `Hash`, args[0]))
+		}
+		return newTypeSetType2(ih, ctx.Loader())
 	}
 	TypeSetMetaType = MakeObjectType(`Pcore::TypeSet`, AnyMetaType,
 		WrapStringToValueMap(map[string]px.Value{
